@@ -42,7 +42,7 @@ ASSUMPTIONS = [
 def gen_case(r, index, tier):
     W = r.choice([4, 6, 8, 10, 12, 20])
     H = max(2, int(round(W * r.choice([0.2, 0.5, 0.75, 1, 1, 1.5, 2, 5]))))
-    die = {"family": r.choice(["dyadic", "decimal"]), "scale_exp": r.weighted([(0, 6), (1, 3), (3, 1), (9, 1)]), "nx": W, "ny": H,
+    die = {"family": r.choice(["dyadic", "decimal"]), "scale_exp": r.weighted([(0, 6), (1, 3), (3, 1), (9, 1), (-3, 1), (-4, 1)]), "nx": W, "ny": H,
            "regions": []}
     nmov = r.randint(4, 9)
     nl = designs.gen_netlist(r, die, nmods=nmov + r.randint(0, 3), kinds=["soft", "soft", "soft", "hard", "fixed"],
@@ -54,9 +54,9 @@ def gen_case(r, index, tier):
                               "center": (r.choice([0, 2 * W, r.randint(0, 2 * W)]), r.choice([0, 2 * H, r.randint(0, 2 * H)]))})
         other = r.choice([m["name"] for m in nl["modules"] if m["name"] != name])
         nl["nets"].append({"mods": [name, other], "w": r.choice([1, 2, 0.5])})
-    # now and then one net is extremely weak compared with the others (weights spanning seven orders of magnitude)
-    if nl["nets"] and r.chance(0.04):
-        r.choice(nl["nets"])["w"] = 2e-07
+    # now and then one net is far weaker than the others (a factor 1e3 .. 1e7)
+    if nl["nets"] and r.chance(0.05):
+        r.choice(nl["nets"])["w"] = r.choice([0.001, 2e-07])
     # discs must fit: cap soft areas
     cap = (0.45 * min(W, H)) ** 2 * math.pi
     tot = 0
@@ -76,7 +76,8 @@ def gen_case(r, index, tier):
         alt = [W * r.choice([1, 2, 2, 3]), H * r.choice([1, 2, 3])]
     for _ in range(r.randint(4, 10)):
         mode = r.weighted([("mt", 7), ("lowent", 3)])
-        trials.append({"seed": r.below(1 << 31), "mode": mode, "bits": r.randint(0, 3), "alt": bool(alt) and r.chance(0.4)})
+        trials.append({"seed": r.below(1 << 31), "mode": mode, "bits": r.randint(0, 3), "alt": bool(alt) and r.chance(0.4),
+                       "verbose": r.chance(0.25)})
     return {"engine": "c14", "die": die, "net": nl, "nfloorplans": ntr, "trials": trials, "alt_die": alt}
 
 
@@ -175,9 +176,9 @@ def run_case(case):
     if nfp == 0 and any(m.center is None for m in probe_net.modules):
         nfp = 1
     ws = [float(e[-1]) if not isinstance(e[-1], str) else 1.0 for e in tree["Nets"]]
-    spread = ">=1e5" if ws and max(ws) / min(ws) >= 1e5 else "<1e5"
-    if spread == ">=1e5":
-        probe("netlist_with_net_weights_spanning_5_orders_of_magnitude")
+    spread = ">=500" if ws and max(ws) / min(ws) >= 500 else "<500"
+    if spread == ">=500":
+        probe("netlist_with_one_net_500_times_weaker_than_another")
     good = 0
     tol = 1e-9 * max(W, H)
     sig.append(digest(tree))
@@ -203,14 +204,15 @@ def run_case(case):
         key = {"mode": "honest-seed" if mode == "mt" else "low-entropy"}
         entry = {"seed": t["seed"], "mode": mode, "nfloorplans": nfp}
         try:
-            net.spectral_layout(G.Shape(W, H), nfp, False)
+            net.spectral_layout(G.Shape(W, H), nfp, bool(t.get("verbose")))
         except (AssertionError, ZeroDivisionError, ValueError, OverflowError) as e:
             entry["out"] = "raised " + type(e).__name__
             hist.append(entry)
             sig.append((t["seed"], mode, "raised"))
             if mode == "mt":
                 viol.append({"property": "C14", "clause": "spectral placement does not position the modules (raised)",
-                             "key": dict(key, exc=type(e).__name__, net_weight_spread=spread),
+                             "key": dict(key, exc=type(e).__name__, net_weight_spread=spread,
+                                         die_size="<0.05" if max(W, H) < 0.05 else ">=0.05"),
                              "detail": {"seed": t["seed"], "exc": repr(e)[:200],
                                                                                "nfloorplans": nfp}})
             else:
